@@ -255,6 +255,7 @@ pub fn check(c: &Case) -> CheckResult {
         (false, false, true) => "shader:bilinear-alpha",
     });
     o.class(if c.repeat { "extend:repeat" } else { "extend:pad" });
+    o.class_if(xf_det(&c.sxf) == 0.0, "image-transform-singular");
     o.class_if(outside, "samples-outside-image");
     o.class_if(c.repeat && (m[4].abs() >= 16384.0 || m[5].abs() >= 16384.0) && c.img.w != c.img.h, "repeat-tile-more-than-16384-texels-away");
     o.class_if(dyadic_tr && c.nearest && !int_tr && ((m[4] + 0.5).fract() == 0.0 || (m[5] + 0.5).fract() == 0.0), "nearest-sample-exactly-on-texel-boundary");
@@ -313,8 +314,24 @@ pub fn strategy() -> BoxedStrategy<Case> {
     // far tiles: the image's own transform moves it tens of thousands of texels away (a small tile repeated over a
     // huge scaled canvas); still inside the 16.16 range of image coordinates
     let far = prop_oneof![11 => Just((0i32, 0i32)), 1 => (prop_oneof![Just(0i32), 16000i32..=30000, -30000i32..=-16000], prop_oneof![Just(0i32), 16000i32..=30000, -30000i32..=-16000])];
-    (2i32..=16, 2i32..=16, prop_oneof![39 => image_probe(8, 8), 1 => big.boxed()], any::<bool>(), any::<bool>(), prop_oneof![2 => Just(1.0f32), 1 => Just(0.5f32), 1 => 0.0f32..=1.0], small_xf(), small_xf(), (0i32..=310, 0i32..=310), prop_oneof![14 => Just(1.0f32), 1 => Just(4096.0f32), 1 => Just(65536.0f32), 1 => Just(1.0f32 / 64.0), 1 => Just(1.0f32 / 4096.0)], far)
-        .prop_map(|(w, h, img, repeat, nearest, alpha, mut ctm, mut sxf, (bx, by), zoom, (fx, fy))| {
+    (2i32..=16, 2i32..=16, prop_oneof![39 => image_probe(8, 8), 1 => big.boxed()], any::<bool>(), any::<bool>(), prop_oneof![2 => Just(1.0f32), 1 => Just(0.5f32), 1 => 0.0f32..=1.0], small_xf(), small_xf(), (0i32..=310, 0i32..=310), prop_oneof![14 => Just(1.0f32), 1 => Just(4096.0f32), 1 => Just(65536.0f32), 1 => Just(1.0f32 / 64.0), 1 => Just(1.0f32 / 4096.0)], far, 0u8..24)
+        .prop_map(|(w, h, img, repeat, nearest, alpha, mut ctm, mut sxf, (bx, by), zoom, (fx, fy), collapse)| {
+            // one image transform in twelve is singular (the source's own transform is only ever applied forwards, so
+            // it need not be invertible): the whole plane shows one row, one column or one point of the image
+            match collapse {
+                0 => {
+                    // image y constant: a horizontal strip of the image smeared along the other direction
+                    sxf[1] = 0.0;
+                    sxf[3] = 0.0;
+                    sxf[5] = (by % img.h.max(1)) as f32 + 0.5;
+                }
+                1 => {
+                    sxf[0] = 0.0;
+                    sxf[2] = 0.0;
+                    sxf[4] = (bx % img.w.max(1)) as f32 + 0.5;
+                }
+                _ => {}
+            }
             sxf[4] += fx as f32;
             sxf[5] += fy as f32;
             // zoom: user units `zoom` times smaller; both the CTM (user to device) and the image's transform (user to
@@ -467,6 +484,7 @@ pub fn property(_ctx: &Ctx) -> Property {
             ("sample", "shader:bilinear-alpha", 0.1),
             ("sample", "samples-outside-image", 0.5),
             ("sample", "extend:repeat", 0.3),
+            ("sample", "image-transform-singular", 0.04),
         ],
         panic_is_violation: false,
     }
